@@ -127,10 +127,10 @@ def main():
             probes_failed += pf
             r["_pf"] = pf
 
-    # expected probe count: recompute from templates (number of //@sig + //@loop directives)
-    for u in verus_units:
-        txt = open(os.path.join(VERIF, "units", u["unit"] + ".vt.rs")).read()
-        probes_expected += len(re.findall(r"^\s*//@(sig|loop)\b", txt, re.M))
+    # expected probe count: number of probes actually emitted into each twin unit
+    for (kind, u, r) in results_v:
+        if kind == "probe":
+            probes_expected += r.get("nprobes", 0)
     vacuity_ok = True
     if verus_units and not any(x.startswith("verus-probe") for x in undecided):
         if probes_failed < probes_expected:
